@@ -8,13 +8,16 @@ extern "C" {
 
 using namespace mpt;
 
-class xqueue : public io::queue
+/* the queue under test is a pipe<uint16_t> instance (an io::queue with a reference count), so that both the
+ * io::queue methods and pipe<T>::elements() of mpt++/io.h can be driven on the same ring state */
+class xqueue : public mpt::pipe<uint16_t>::instance
 {
 public:
-	xqueue(size_t n) : io::queue(n) { }
+	xqueue() { }
 	::mpt::queue &raw() { return _d; }
 };
 static xqueue *xq;
+static mpt::pipe<uint16_t> *xp;   /* holds the reference; its destructor pops everything and releases the instance */
 
 static void put_content(void)
 {
@@ -51,8 +54,9 @@ int main(void)
 			/* xq new <max> <off> <fill>: capacity max (multiple of 8 or 0), start offset, content */
 			if (drv_parse_nat(drv_w[2], &a) || drv_parse_nat(drv_w[3], &b) || drv_parse_data(drv_w[4], &dat, &dlen, &isnull) || isnull
 			    || b > a || dlen > a) { puts("bad-op"); free(dat); continue; }
-			delete xq;
-			xq = new xqueue(0);
+			delete xp;
+			xq = new xqueue();
+			xp = new mpt::pipe<uint16_t>(xq);
 			::mpt::queue &q = xq->raw();
 			q.base = a ? calloc(a, 1) : 0;
 			q.max = a; q.off = b; q.len = dlen;
@@ -118,8 +122,15 @@ int main(void)
 			if (s.size() < want) result("short", s.begin(), s.size(), i);
 			else result("ok", s.begin(), want, i);
 		}
+		else if (!strcmp(op, "elements") && drv_nw == 2) {
+			/* pipe<uint16_t>::elements(): a view of all stored elements */
+			span<uint16_t> e = xp->elements();
+			char i[32];
+			snprintf(i, sizeof(i), "%zu", (size_t) e.size());
+			result("ok", (const uint8_t *) e.begin(), e.size() * sizeof(uint16_t), i);
+		}
 		else puts("bad-op");
 	}
-	if (xq) { delete xq; }
+	delete xp;
 	return 0;
 }
